@@ -205,6 +205,7 @@ class CFG:
         with_exit_raises: Callable[[ast.expr], Iterable[str]] | None = None,
         hierarchy: dict[str, str | None] | None = None,
         generic_exceptions: bool = True,
+        handler_tokens: bool = True,
         const_true: Callable[[ast.expr], bool | None] | None = None,
     ) -> None:
         self.fn = fn
@@ -214,6 +215,10 @@ class CFG:
         self.with_exit_raises = with_exit_raises
         self.hierarchy = hierarchy
         self.generic_exceptions = generic_exceptions
+        # with handler_tokens, a call inside a `try` body may also raise the non-Exception classes its handlers name
+        # (KeyboardInterrupt, FailureGroup, SkipTest ...), so that those arms are reachable in the graph
+        self.handler_tokens = handler_tokens
+        self._handler_stack: list[list[str]] = []
         self.const_true = const_true
         self.entry = self._new("entry")
         self.exit = self._new("exit")
@@ -246,13 +251,20 @@ class CFG:
     def _tokens(self, node: ast.AST) -> list[str]:
         """Exception tokens an expression/statement header may raise."""
         out: list[str] = []
-        if self.generic_exceptions:
-            for n in walk_local(node):
-                if isinstance(n, (ast.Call, ast.Subscript, ast.Await)):
-                    if isinstance(n, ast.Subscript) and not isinstance(n.ctx, ast.Load):
-                        continue
+        has_call = False
+        for n in walk_local(node):
+            if isinstance(n, (ast.Call, ast.Subscript, ast.Await)):
+                if isinstance(n, ast.Subscript) and not isinstance(n.ctx, ast.Load):
+                    continue
+                if isinstance(n, (ast.Call, ast.Await)):
+                    has_call = True
+                if self.generic_exceptions and GENERIC not in out:
                     out.append(GENERIC)
-                    break
+        if has_call and self.handler_tokens:
+            for frame in self._handler_stack:
+                for t in frame:
+                    if t not in out:
+                        out.append(t)
         if self.extra_raises is not None:
             for t in self.extra_raises(node):
                 if t not in out:
@@ -483,7 +495,20 @@ class CFG:
 
         after_body = self._block(s.orelse, kf) if s.orelse else kf.nxt
         kb = K(after_body, kf.ret, kf.brk, kf.cont, dispatch if s.handlers else kf.exc)
-        return self._block(s.body, kb)
+        frame = []
+        for _h, classes, _e in handler_entries:
+            for c in classes:
+                cs = short(c)
+                if cs in ("BaseException", "?"):
+                    continue
+                sub = is_subclass(cs, "Exception", self.hierarchy)
+                if sub is False and cs not in frame:
+                    frame.append(cs)
+        self._handler_stack.append(frame)
+        try:
+            return self._block(s.body, kb)
+        finally:
+            self._handler_stack.pop()
 
     # ---------------------------------------------------------------- post-processing
     def _prune(self) -> None:
